@@ -1,7 +1,8 @@
 """C15 oracle on the real code: (a) every captured kernel, executed cell by cell in place in two different
 serial orders, gives identical arrays (detects a written field read off-centre); (b) in real simulator steps no
 call passes overlapping memory as a written array and as another, differently indexed or off-centre-read array;
-(c) the spreading kernels are serial (no numba `parallel`, no `prange`)."""
+(c) the numba communicators give bit-identical interpolation and spreading with 1 and with all numba threads (the source-level
+obligation "no parallel=True / prange" is corr/serial.py); (d) thread sweep of the Poisson solvers."""
 import inspect
 import itertools
 import warnings
@@ -106,15 +107,59 @@ def run(seed=0, tier="quick", aimed=None):
                     "oracle": "callsite_alias", "simulator": name, **ov}}
         samples.append({"oracle": "callsite_alias", "simulator": name, "kernel_calls": len(tr.lines),
                         "aliasing_calls": len(tr.overlaps)})
-    # ---- (c) spreading is serial
+    # ---- (c) the numba communicators under a thread sweep (the source-level obligation is corr/serial.py)
     import sopht.numeric.immersed_boundary_ops as ibo
 
-    for cls, dim in ((ibo.EulerianLagrangianGridCommunicator2D, 2), (ibo.EulerianLagrangianGridCommunicator3D, 3)):
-        src = inspect.getsource(inspect.getmodule(cls))
-        cases += 1
-        if "prange" in src or "parallel=True" in src.replace(" ", ""):
-            return {"ok": False, "cases": cases, "samples": samples, "failing_input": {
-                "oracle": "spreading_serial", "module": cls.__module__, "what": "prange / parallel=True present"}}
+    # ---- (c') the communicators executed with 1 and with many numba threads: interpolation and spreading (scalar and vector,
+    #           small and large marker sets with overlapping windows, two successive spreads) must be bit-identical
+    import numba
+
+    nmax = int(numba.config.NUMBA_NUM_THREADS)
+    marker_counts = (48, 2500, 6000) if tier == "quick" else (48, 700, 2500, 6000, 20000)
+    comm_sweep = {"runs": 0, "threads": [1, nmax]}
+    try:
+        for (cls, dim), nlag, ncomp in itertools.product(((ibo.EulerianLagrangianGridCommunicator2D, 2), (ibo.EulerianLagrangianGridCommunicator3D, 3)),
+                                                         marker_counts, ("scalar", "vector")):
+            if nmax < 2:
+                break
+            rr = impl.rng(seed, "c15comm", dim, nlag, ncomp)
+            shape = (40, 48) if dim == 2 else (20, 24, 28)
+            dx = 1.0 / shape[-1]
+            ncmp = 1 if ncomp == "scalar" else dim
+            with warnings.catch_warnings():
+                warnings.simplefilter("ignore")
+                comm = cls(dx=dx, eul_grid_coord_shift=dx / 2, num_lag_nodes=nlag, interp_kernel_width=2, real_t=np.float64, n_components=ncmp)
+            # markers on a small blob in the middle of the grid, in random storage order: every window overlaps many others
+            centre = np.array([0.5 * shape[dim - 1 - a] * dx for a in range(dim)])
+            pos = centre.reshape(dim, 1) + rr.normal(size=(dim, nlag)) * 2.5 * dx
+            pos = np.clip(pos, 3 * dx, (np.array([shape[dim - 1 - a] for a in range(dim)]).reshape(dim, 1) - 3) * dx)
+            eul = rr.normal(size=shape if ncmp == 1 else (dim,) + shape)
+            lagF = rr.normal(size=nlag if ncmp == 1 else (dim, nlag))
+            outs = {}
+            for nt in (1, nmax):
+                numba.set_num_threads(nt)
+                idx = np.zeros((dim, nlag), dtype=int)
+                sup = np.zeros((dim,) + (4,) * dim + (nlag,))
+                w = np.zeros((4,) * dim + (nlag,))
+                comm.local_eulerian_grid_support_of_lagrangian_grid_kernel(sup, idx, pos)
+                comm.interpolation_weights_kernel(w, sup)
+                lag_out = np.zeros_like(lagF)
+                comm.eulerian_to_lagrangian_grid_interpolation_kernel(lag_out, eul, w, idx)
+                acc = np.zeros_like(eul)
+                for _ in range(2):
+                    comm.lagrangian_to_eulerian_grid_interpolation_kernel(acc, lagF, w, idx)
+                outs[nt] = (lag_out, acc)
+                comm_sweep["runs"] += 1
+                cases += 1
+            for name, a, b in (("interpolation", outs[1][0], outs[nmax][0]), ("spreading", outs[1][1], outs[nmax][1])):
+                if not np.array_equal(a, b):
+                    return {"ok": False, "cases": cases, "samples": samples, "failing_input": {
+                        "oracle": "c15_communicator_thread_sweep", "communicator": cls.__name__, "field": ncomp, "markers": nlag, "grid": list(shape),
+                        "operation": name, "threads": [1, nmax], "max_abs_dev": float(np.max(np.abs(a - b))),
+                        "what": f"{name} of {nlag} markers differs bitwise between 1 and {nmax} numba threads"}}
+    finally:
+        numba.set_num_threads(nmax)
+    samples.append({"oracle": "c15_communicator_thread_sweep", **comm_sweep})
     # ---- (d) thread sweep of the Poisson solvers on the real implementation (run LAST: a listed known finding must not
     #          mask another violation).  The stencil kernels are executed here by a numpy interpreter (no OpenMP back end in this
     #          sandbox), so the only threaded component is pyFFTW; a difference is attributed to its call site by comparing the
